@@ -21,6 +21,10 @@ of helper variables.  What is decided here is the *bookkeeping* that every such 
 
 NOT decided: that the threshold `len > (1 << helpers) - 1` allocates enough bits and that the two bit expressions agree for
 every n - an arithmetic fact about bit patterns (see DESIGN.md section 6).
+
+Added after the fifth seeding round:
+  core           all rules of C01 and C02 (rules/core.py): the forbid clauses exclude a pair only if they are propagated, and only if
+                 a run interrupted after installing a second candidate is never handed out as a solution (seed C15-12)
 """
 from common import *
 import q, enc, c01
